@@ -5,6 +5,7 @@ import Driver.LeakDrv
 import Driver.AtrestDrv
 import Driver.CodecDrv
 import Driver.InviteDrv
+import Driver.KnowDrv
 
 def main (args : List String) : IO UInt32 := do
   match args with
@@ -15,4 +16,5 @@ def main (args : List String) : IO UInt32 := do
   | ["atrest"] => Driver.AtrestDrv.main; return 0
   | ["codec"] => Driver.CodecDrv.main; return 0
   | ["invite"] => Driver.InviteDrv.main; return 0
+  | ["know"] => Driver.KnowDrv.main; return 0
   | _ => IO.eprintln "usage: mdkdrv store < ops"; return 2
